@@ -31,6 +31,7 @@ func (vc *VC) call(fr *frame, st *State, site ssa.Instruction, c *ssa.CallCommon
 		}
 		return TupleVal(vals)
 	}
+	vc.panicSafeCheck(fr, st, site, c)
 	if c.IsInvoke() {
 		recv := vc.valueOf(fr, c.Value)
 		it := c.Value.Type()
